@@ -112,6 +112,16 @@ class C14(Prop):
                                                              rng.choice(storegen.LABELS)] for _ in range(rng.randint(0, 6))]})
             out.append(("legacy-old-schema", {"testing": k % 2 == 0, "mode": rng.choice(["same", "same", "other-profile"]), "other_first": False,
                                               "old_schema": True, "buckets": bs}))
+        # a legacy file that some tool has switched to write-ahead logging and whose last writes are still in the -wal file
+        # beside it (another connection keeps the log from being folded back): the legacy database is the file AND its journal
+        for k in range(ctx.pick(4, 20)):
+            bs = []
+            for j in range(rng.choice([1, 2])):
+                bid = f"wal-{j}"
+                bs.append({"id": bid, "meta": storegen.mk_meta(rng, bid),
+                           "events": [[None, T0 + rng.randrange(0, 50) * 1_000_000, rng.choice([0, 1500, 2_000_000]), rng.choice(storegen.LABELS)]
+                                      for _ in range(rng.randint(1, 12))]})
+            out.append(("legacy-wal", {"testing": k % 2 == 0, "mode": "same", "other_first": False, "wal": True, "buckets": bs}))
         # texts that a JSON document can carry only escaped (half of a surrogate pair, NUL) or that some tools treat as
         # line ends; the model's strings are UTF-8, so these cases are judged on the two real stores alone
         ODD = ["\ud83d", "half \ude00 pair", "nul\x00char", "line\u2028sep\u2029", "\x7f\x80\ufffe"]
@@ -130,6 +140,19 @@ class C14(Prop):
         os.environ["XDG_DATA_HOME"] = d
         try:
             legacy = PeeweeStorage(testing=case["testing"])
+            keeper = None
+            if case.get("wal"):
+                import sqlite3
+
+                legacy.db.close()  # (the journal mode can only be changed while nobody else has the file open)
+                keeper = sqlite3.connect(os.path.join(d, "activitywatch", "aw-server", "peewee-sqlite" + ("-testing" if case["testing"] else "") + ".v2.db"))
+                keeper.execute("PRAGMA journal_mode=WAL").fetchall()
+                keeper.execute("PRAGMA wal_autocheckpoint=0").fetchall()
+                keeper.isolation_level = None
+                keeper.execute("BEGIN")  # a reader that stays: the log cannot be folded back into the file
+                keeper.execute("SELECT * FROM sqlite_master").fetchall()
+                legacy = PeeweeStorage(testing=case["testing"])
+                legacy.db.execute_sql("PRAGMA wal_autocheckpoint=0")
             for b in case["buckets"]:
                 m = b["meta"]
                 legacy.create_bucket(b["id"], m["type"], m["client"], m["hostname"], storelib.created_iso(m["created_us"]),
@@ -206,6 +229,8 @@ class C14(Prop):
             except Exception:
                 pass
             h1 = file_hash(lpath) if os.path.exists(lpath) else "legacy file is gone"
+            if keeper is not None:
+                keeper.close()  # (the harness's own connection: closing it folds the log back, after the file was hashed)
             return {"legacy": legacy_dump, "new": new_dump, "legacy_unchanged": h0 == h1, "files": files, "second": second,
                     "fresh": fresh, "emptied": emptied}
         finally:
